@@ -16,4 +16,6 @@ pub mod mon;
 #[cfg(feature = "full")]
 pub mod obs;
 #[cfg(feature = "full")]
+pub mod shapes;
+#[cfg(feature = "full")]
 pub mod shrink;
